@@ -129,6 +129,7 @@ type Template struct {
 	Sig   string
 	Body  []*Node
 	UsesChildren bool
+	Trailer      string // Go code on the line of the closing brace
 }
 
 type File struct {
@@ -450,6 +451,12 @@ func (p *Printer) node(n *Node, indent int) {
 		p.feat("filter." + n.Filter)
 		p.w(tabs + ":" + n.Filter + "\n")
 		for _, l := range n.Lines {
+			if len(l) == 0 {
+				// a completely empty line in the middle of the filter body belongs to it
+				p.feat("filter.empty-line")
+				p.w("\n")
+				continue
+			}
 			p.w(tabs + "\t")
 			p.parts(l)
 			p.w("\n")
@@ -526,7 +533,12 @@ func (f *File) Print() (*Printer, string) {
 		for _, n := range t.Body {
 			p.node(n, 1)
 		}
-		p.w("}\n\n")
+		p.w("}")
+		if t.Trailer != "" {
+			p.feat("template.trailer")
+			p.frag("gocode", t.Trailer)
+		}
+		p.w("\n\n")
 	}
 	if len(f.Chrome) > len(f.Templates) {
 		for _, l := range strings.Split(strings.TrimRight(f.Chrome[len(f.Templates)], "\n"), "\n") {
